@@ -186,8 +186,8 @@ theorem message_ids_advance_code (c n i : Nat) (h : i < n) :
     | succ j =>
       simp only [List.getElem?_cons_succ]
       rw [ih (c + 1) j (by omega)]
-      congr 3
-      omega
+      have e : (c + 1 + j + 1) % 256 = (c + (j + 1) + 1) % 256 := by omega
+      rw [e]
 
 example : idsCode 253 4 = [254, 255, 0, 1] := by decide +kernel
 
